@@ -20,6 +20,13 @@ pub struct LuaCommandContext {
     pub storage: Arc<StorageEngine>,
 }
 
+thread_local! {
+    /// Commands run through redis.call / redis.pcall by the script being executed, with their
+    /// replies. Collected (when set to Some by the caller) so that the append-only file can
+    /// record what the script did rather than the script itself.
+    pub static SCRIPT_EFFECTS: std::cell::RefCell<Option<Vec<(Vec<String>, RespFrame)>>> = std::cell::RefCell::new(None);
+}
+
 /// Single-threaded Lua execution engine with unified command processing
 pub struct LuaEngine {
     // Removed local script_cache - using global cache at server level
@@ -269,8 +276,15 @@ impl LuaEngine {
             _ => {
                 // Route through unified command processor
                 let lua_adapter = LuaCommandAdapter::new(storage.clone());
-                match lua_adapter.execute_lua_command(args, db_index) {
-                    Ok(resp_frame) => Self::resp_frame_to_lua_value(lua_ctx, resp_frame, is_pcall),
+                match lua_adapter.execute_lua_command(args.clone(), db_index) {
+                    Ok(resp_frame) => {
+                        SCRIPT_EFFECTS.with(|effects| {
+                            if let Some(list) = effects.borrow_mut().as_mut() {
+                                list.push((args, resp_frame.clone()));
+                            }
+                        });
+                        Self::resp_frame_to_lua_value(lua_ctx, resp_frame, is_pcall)
+                    }
                     Err(e) => Self::handle_command_error_with_context(lua_ctx, e.to_string(), is_pcall),
                 }
             }
